@@ -58,6 +58,14 @@ def cases(rng, tier, shard, nshards, phase):
         case = c01.gen_case(rng, rule)
         case["cfg"].pop("transfer", None)
         case["tseed"] = rng.randint(0, 10 ** 9)
+        if rng.random() < 0.08 and len(case["spec"]["b"]) >= 2:
+            # tallies that differ by one vote far above 2**53: unequal, but equal as floats - a deterministic rule must
+            # still order them the same way under every representation (no tie exists, none may be recorded)
+            for b in case["spec"]["b"]:
+                b["w"] = str(10 ** 16)
+            k = rng.randrange(len(case["spec"]["b"]))
+            case["spec"]["b"][k]["w"] = str(10 ** 16 + 1)
+            case["near_equal_huge"] = True
         yield case
 
 
@@ -82,6 +90,8 @@ def run_case(vk, case):
     n = len(spec["c"])
     base, res = run_variant(vk, rule, cfg, spec, spec["names"], spec["b"], spec["c"], case["rs"])
     tags = [f"rule:{rule}", f"status:{base[0]}"]
+    if case.get("near_equal_huge"):
+        tags.append("weights:near-equal-above-2^53")
     monitors = []
 
     def fail(name, detail):
